@@ -3,15 +3,25 @@ from vcommon import *
 import scen_common
 
 PID = "C06"
-PROP_V = ["Props/Properties_C06.v", "Props/Properties_C06w.v", "Props/Properties_C06x.v"]
+PROP_V = ["Props/Properties_C06.v", "Props/Properties_C06w.v", "Props/Properties_C06x.v", "Props/Properties_C06a.v"]
 GEN_MODULES = ["Consts", "Sites"]
-FLOW_FILES = ['mu.c', 'mu_wait.c']
+FLOW_FILES = ['mu.c', 'mu_wait.c', 'cv.c']
 REPLAY_HINT = "VRT_SEED=<seed> [VRT_MODE=<m>] _work/h/muwait_mix"
 PARTIAL = ["the clause 'a release by nsync_mu_unlock_without_wakeup may leave asleep only waiters whose conditions were already false before that "
            "critical section began' has no theorem (C06_allfalse_sound is for programs without OUnlockNW: with it the MU_ALL_FALSE claim is violated within "
            "a few dozen random runs of the extracted model, by design of that call's contract); it is decided by the muwait_mix bystander oracle",
-           "'alongside cv waiters': MuWaitModel has no cv waiter transferred onto the mutex queue (cv.c:68-110 can enqueue inside the scanner's released-spinlock "
-           "window); the lock-step tie runs VRT_CV=0 only; cv waiters on the same mutex are covered by the scenario oracles (VRT_CV=1, MODE 3) and by CvModel's abstract mutex",
+           
+           "'alongside cv waiters': Model/MuAllModel.v wraps MuWaitModel (stepped unchanged for mu.c / mu_wait.c) with cv waits, signal / broadcast, wake_waiters site by site "
+           "(the transfer appends to mu->waiters, which a scanner may have swapped out: its next round picks the arrivals up as new_waiters) and nsync_wait_n records; tied in "
+           "lock-step (muall_replay: muwait_mix VRT_CV=1 / MODE 3 / MODE 6 and muall_mix, which reaches transfers INSIDE a scanner's released-spinlock window).  PROVED "
+           "(Properties_C06a, any reachable world, < 2^24 threads): C06a_word_agrees, C06a_exclusion, C06a_eval_under_lock (a condition is evaluated only by a thread that "
+           "owns lock bits while no other thread owns the write lock -- with cv waiters present), C06a_transfer_in_scanner_window (a scanner without the spinlock owns the "
+           "write lock, so a wake_waiters CAS that succeeds then always transfers its first waiter and keeps MU_WAITING: the F15 clearing cannot misfire there), "
+           "C06a_wake_waiters_keeps_lock_bits / _flag_bits (site level, all word values).  NOT proved with cv waiters present: the ring / queue invariant with transferred "
+           "waiters as unconditional singletons, world-level MU_ALL_FALSE soundness, no lost wake-up -- MuWaitWorld's info map is computed from each waiter's own mu_wait pc "
+           "and would have to be restated; these are covered by exploration of the extracted model only (replay/muall_explore.ml: 1.4 * 10^6 random programs, every state "
+           "checked for exclusion, no Crash, evaluation under the lock, MU_ALL_FALSE soundness, list discipline, F15's bit, and no sleeper beside a free mutex at "
+           "quiescence: 0 violations; the checks themselves catch a reversed F15 repair and a dropped transfer) and by the scenario oracles",
            "PROVED for every reachable world (Properties_C06w, Proof/MuWaitWorld1-5): RingInv of mu->waiters and of every scanner's private lists "
            "(C06_RingInv_reachable, C06_rings_reachable: rings are runs of adjacent WAIT_CONDITION_EQ-equivalent waiters -- runs, not maximal runs: merges are only "
            "attempted at enqueue and removal boundaries), the scan never panics (C06_no_scan_panic), and MU_ALL_FALSE is sound: whenever it is set and nobody "
@@ -23,7 +33,7 @@ PARTIAL = ["the clause 'a release by nsync_mu_unlock_without_wakeup may leave as
            "'no step changes the world'; that an agent which can move eventually does so (fair scheduling) is outside the model and is the scenario oracles' job "
            "(stuck / livelock detector, quiescent-state observers); nsync_mu_unlock_without_wakeup is excluded by hypothesis.  Internal panics (Crash 2/5/6/7/10) are "
            "proved unreachable (C06_no_internal_panic); Crash 1/4/8/9 are client-contract violations"]
-TRUSTED_BASE = ["Model/MuWaitModel.v control skeleton (mu.c + mu_wait.c incl. the multi-round scan with condition evaluation, ring repair, the "
+TRUSTED_BASE = ["Model/MuAllModel.v control skeleton incl. the parked-pc encoding (Crash 99 + ghost spin) of a wake_waiters thread that owns the mutex spinlock without running mu.c code; validated by muall_replay", "Model/MuWaitModel.v control skeleton (mu.c + mu_wait.c incl. the multi-round scan with condition evaluation, ring repair, the "
                 "timeout re-acquisition path): hand-written, validated by lock-step replay with queue AND same_condition-ring snapshots (replay/muwait_replay.ml)"]
 
 
@@ -34,6 +44,11 @@ def run(tier, seed):
                                                               ("muwait_mix", {"VRT_MODE": 1, "VRT_CV": 0}, 150, 1500),
                                                               ("muwait_mix", {"VRT_MODE": 5, "VRT_CV": 0}, 150, 1500),
                                                               ("mu_mix", {}, 150, 1500)], tier, seed)
+    tie_all = mu_common.tie(res, "muall_replay", "MuAllModel", [("muwait_mix", {"VRT_MODE": 0, "VRT_CV": 1}, 150, 1500), ("muwait_mix", {"VRT_MODE": 3}, 150, 1500),
+                                                                 ("muwait_mix", {"VRT_MODE": 6}, 150, 1500), ("muall_mix", {}, 250, 3000)], tier, seed)
+    for k in ("traces_validated_against_impl", "lockstep_model_steps"):
+        tie[k] = tie.get(k, 0) + tie_all.get(k, 0)
+    tie["model_sites_hit_muall"] = tie_all.get("model_sites_hit", {})
     specs = [("muwait_mix", {"VRT_MODE": 0}, 4000, 80000), ("muwait_mix", {"VRT_MODE": 1}, 1000, 20000), ("muwait_mix", {"VRT_MODE": 2}, 2500, 50000),
              ("muwait_mix", {"VRT_MODE": 0}, 800, 15000, "binary"), ("muwait_mix", {"VRT_MODE": 3}, 1500, 30000), ("muwait_mix", {"VRT_MODE": 0, "VRT_FINE": 600}, 1500, 30000),
              # observer thread: in a quiescent world no waiter may be asleep with its condition already made true (a lost wake-up that a timed
@@ -42,6 +57,9 @@ def run(tier, seed):
              # F13's shape (reader-mode nsync_mu_wait while a reader is the designated waker): scripted and random schedules
              # producers / consumers: conditions that become false again, so woken waiters wait a second time inside one call (MODE 5)
              ("muwait_mix", {"VRT_MODE": 5}, 3000, 60000), ("muwait_mix", {"VRT_MODE": 5, "VRT_PLAINPM": 30}, 1000, 20000),
+             # a conditional waiter queued + a reader cv waiter + an nsync_wait_n record + a wake-up under a read lock that transfers nobody (MODE 6)
+             ("muwait_mix", {"VRT_MODE": 6}, 1200, 20000),
+             ("muall_mix", {}, 1500, 30000),
              ("rdwait_stuck", {}, 3, 10), ("longwait_stuck", {"VRT_CLOCKP": 0}, 5, 30), ("rdwait_stuck", {"VRT_SCRIPT": 0}, 2500, 50000)]
     cov = scen_common.run_scenarios(res, specs, tier, seed, {"C06", "C05", "C02", "C06x"} | scen_common.LIVENESS | scen_common.CRASHES)
     cov["rule"] = ("muwait_mix: 2..4 waiters on {same f+arg, same f+different arg, eq-equivalent args, different f, no condition} in reader/"
